@@ -17,7 +17,8 @@
                      they had, and a new buffer is all Skip (a_new)
    This file contains nothing but the property theorems, each closed by [exact <lemma>]. *)
 From Coq Require Import ZArith List Bool.
-From Tickit Require Import RectDefs RBDefs RBSpec RBLemmas RBAbsLemmas RBInv RBProofs RBProps RBRestore RBTheorems.
+From Tickit Require Import RectDefs RBDefs RBSpec RBLemmas RBAbsLemmas RBInv RBProofs RBProps RBRestore RBTheorems RBWidth RBUtf8Bridge RBPenBridge.
+From Tickit Require Utf8Defs PenDefs PenProofs.
 Import ListNotations.
 Local Open Scope Z_scope.
 
@@ -111,6 +112,58 @@ Theorem C03_cursor_advances : forall s o s' v,
   end.
 Proof. exact cursor_moves. Qed.
 Print Assumptions C03_cursor_advances.
+
+(* COMPOSITION WITH PROPERTY C07.  The model measures and slices texts as lists of code points
+   with the library's own width function (cpw = Utf8Spec.spec_width, which
+   C07_wcwidth_is_membership proves equal to the model of tickit_utf8_wcwidth over the tables
+   re-translated from the sources).  On the UTF-8 encoding of such a list (enc = the bytes
+   tickit_utf8_put stores), the C07 model of tickit_utf8_ncountmore -- proved against its
+   specification in C07 -- returns what the render-buffer model computes:
+   (1) tickit_utf8_ncount(str, len, &pos, NULL), as put_text calls it first: the error value
+       exactly for the strings the model calls invalid, otherwise all bytes, and the column count
+       is text_width; *)
+Theorem C03_text_valid_is_utf8 : forall s junk, cps_ok s ->
+  let len := Z.of_nat (length (enc s)) in
+  if text_valid s
+  then exists g, Utf8Defs.u8_ncount (enc s ++ junk) len None =
+                 Utf8Defs.CRet len (Utf8Defs.mkPos len (Z.of_nat (length s)) g (text_width s))
+  else exists p, Utf8Defs.u8_ncount (enc s ++ junk) len None = Utf8Defs.CRet (-1) p.
+Proof. exact rb_valid_is_utf8. Qed.
+Print Assumptions C03_text_valid_is_utf8.
+
+(* (2) tickit_utf8_count / countmore with a column (or grapheme) limit from a code-point
+       boundary, as put_text, get_cell_text, the flush and the mock terminal slice strings: no
+       error, and the code-point, grapheme and column counters are those of count_on /
+       count_from0 (a = [] gives the latter). *)
+Theorem C03_text_count_is_utf8 : forall a b junk g col lg lc,
+  valid b -> cps_ok a ->
+  let pos := Utf8Defs.mkPos (Z.of_nat (length (enc a))) (Z.of_nat (length a)) g col in
+  exists r p, Utf8Defs.u8_ncountmore (enc a ++ enc b ++ 0 :: junk) None pos (rb_limit lg lc) = Utf8Defs.CRet r p /\ r <> -1 /\
+              forget p = count_on (a ++ b) (forget pos) lg lc.
+Proof. exact rb_count_on_is_utf8. Qed.
+Print Assumptions C03_text_count_is_utf8.
+
+(* COMPOSITION WITH PROPERTY C19.  The pens of the model are the attribute maps (all ten
+   attributes, colours with their RGB8 secondaries) that C19 assigns to TickitPens
+   (denote p = PenSpec.lookup p); the model's merge and equivalence are what C19's model of
+   tickit_pen_copy / tickit_pen_equiv does to those maps (by C19_copy, C19_equiv_iff, C19_clear,
+   C19_clone_equiv): *)
+Theorem C03_pen_copy_is_C19 : forall dst src ow, PenProofs.wf src ->
+  denote (PenDefs.copy dst src ow) = pen_copy (denote dst) (denote src) ow.
+Proof. exact rb_pen_copy_is_C19. Qed.
+Print Assumptions C03_pen_copy_is_C19.
+
+Theorem C03_pen_equiv_is_C19 : forall x y, PenDefs.equiv x y = pen_equiv (denote x) (denote y).
+Proof. exact rb_pen_equiv_is_C19. Qed.
+Print Assumptions C03_pen_equiv_is_C19.
+
+Theorem C03_pen_new_is_C19 : forall g p, denote (PenDefs.pen_new g) = pen_empty /\ denote (PenDefs.clear p) = pen_empty.
+Proof. exact rb_pen_new_is_C19. Qed.
+Print Assumptions C03_pen_new_is_C19.
+
+Theorem C03_pen_clone_is_C19 : forall orig g, PenProofs.wf orig -> denote (PenDefs.clone orig g) = denote orig.
+Proof. exact rb_pen_clone_is_C19. Qed.
+Print Assumptions C03_pen_clone_is_C19.
 
 (* non-vacuity: a reachable state with a text span cut by a character next to a masked cell,
    inside a save bracket, meets the hypotheses *)
